@@ -17,7 +17,7 @@ func init() {
 		ID: "C19", Level: "exploration", PanicClause: "C19.harness_panic",
 		Cases: func(tier string) int {
 			if tier == "quick" {
-				return 1200
+				return 2400
 			}
 			return 100000
 		},
